@@ -160,6 +160,7 @@ func init() {
 			monC10RestartAfterHandler(s, plan)
 			monC10StaleUpgradeInfo(s, plan)
 		}
+		monC10RestartAfterParamChange(s)
 		for h := 0; h < n; h++ {
 			accts := rtAccts()
 			dbA, dbB := dbm.NewMemDB(), dbm.NewMemDB()
@@ -417,6 +418,7 @@ func init() {
 		s := NewStream(dir, "upgrade")
 		defer s.Close(dir, "upgrade")
 		monC19UpgradePathDatabase(s)
+		monC19GenesisWithoutUpgradeSection(s)
 		for h := 0; h < n; h++ {
 			accts := rtAccts()
 			a, err := NewChain(dbm.NewMemDB(), tmpHome(), accts, 100000, nil)
